@@ -19,8 +19,8 @@ func (p *Protocol) handleStreamDownloadBlock(stream network.Stream) {
 		log.Error("Handle", "err", err)
 		return
 	}
-	//允许下载的最大高度区间为256
-	if req.End-req.Start > 256 || req.End < req.Start {
+	//允许下载的最大高度区间为256, Start为负数时End-Start可能溢出int64, 需先判断
+	if req.Start < 0 || req.End < req.Start || req.End-req.Start > 256 {
 		log.Error("handleStreamDownloadBlock", "error", "wrong parameter")
 		return
 	}
@@ -58,8 +58,8 @@ func (p *Protocol) handleStreamDownloadBlockOld(stream network.Stream) {
 		Start: data.Message.StartHeight,
 		End:   data.Message.EndHeight,
 	}
-	//允许下载的最大高度区间为256
-	if req.End-req.Start > 256 || req.End < req.Start {
+	//允许下载的最大高度区间为256, Start为负数时End-Start可能溢出int64, 需先判断
+	if req.Start < 0 || req.End < req.Start || req.End-req.Start > 256 {
 		log.Error("handleStreamDownloadBlock", "error", "wrong parameter")
 		return
 	}
